@@ -7,7 +7,7 @@ COMMON_TRUSTED = [
 
 PROPS = {
     "C02": {
-        "verus_units": ["bucket"],
+        "verus_units": ["bucket", "mgr"],
         "trusted": COMMON_TRUSTED,
         "assumptions": [],
         "clauses_not_decided": [
@@ -62,16 +62,17 @@ PROPS = {
         "jobs": {"quick": 6, "thorough": 6},
     },
     "C16": {
-        "verus_units": ["live", "evict"],
+        "verus_units": ["live", "evict", "select"],
         "trusted": COMMON_TRUSTED,
         "assumptions": [
             "fewer than 2^32 consecutive failures per peer (u32 counter)",
         ],
         "clauses_not_decided": [
-            "that DhtCoreEngine::evict_node / handle_node_failure call remove_node (async engine; Kani ICE)",
+            "that DhtCoreEngine::evict_node / handle_node_failure call remove_node, and hence 'appears in no closest-node answer until added again' (async engine; the routing-table side is C02's remove_node contract)",
+            "ranking clauses of the selector (closer first at equal trust, more trusted first at equal distance): not proved; exercised only by the native bounded search, which is not counted as evidence",
             "selection when trust selection is disabled (engine-level async select_query_peers)",
         ],
-        "explanation": "Liveness policy for all histories by Verus (induction lemma over step contracts); eviction-reason predicate, events and candidate list by Kani over symbolic counts/scores/thresholds with enumerated map shapes; selector ranking by Kani (bounded candidates).",
+        "explanation": "Verus: liveness policy for all histories; EvictionManager policy predicate, events (whole-map frames), candidate list exactness for maps of any size; selector structural clauses (at most count, from distinct candidate positions, never below the trust floor, storage floor 0.2). Kani: liveness step, f64::clamp facts.",
         "jobs": {"quick": 6, "thorough": 6},
     },
     "C14": {
@@ -106,16 +107,18 @@ PROPS = {
         "jobs": {"quick": 8, "thorough": 8},
     },
     "C15": {
-        "verus_units": [],
-        "trusted": COMMON_TRUSTED + [
-            "count_confirming_regions (HashSet<&String>) is replaced by a contract stub returning an arbitrary count (soundness clauses), a count that does not grow when a confirmation is withdrawn (monotonicity) and >= min_regions under the completeness premise; its own body is NOT verified here (HashSet over strings is out of CBMC's reach) -- assumed contract",
-            "detect_collusion_indicators replaced by a contract stub in the membership harnesses; its contract (no flag for < 3 witnesses or pairwise >= 10 ms apart latencies) is proved by c15_collusion_contract_5 (bounded)",
-        ],
+        "verus_units": ["cgv"],
+        "trusted": COMMON_TRUSTED,
         "assumptions": [
-            "witness trust in [0,1] or absent, thresholds in [0,1] (the property's domain); f-liars clause for quorum thresholds > 2/3 (default 0.71, from_maintenance_config (2f+1)/(3f+1))",
+            "IEEE-754 operators on f64 are deterministic total functions of their operands (float prelude F0); the order facts used by the lemmas are proved bit-precisely by the Kani harnesses c15_float_* EXCEPT two facts about division (monotone in the numerator; x/x >= 1), which stay assumptions (SAT on the 64-bit divider did not finish) and are used only by the withdrawal / unanimity lemmas",
+            "normal-mode lemmas: every witness weight in [0,1] (trust in [0,1] or unknown = 0.5: the property's domain); f-liars lemma: quorum threshold >= 1/2 and fewer than 2^32 witnesses",
+            "'distinct response times' = the collusion heuristic raises no flag (callee contract, proved by Kani for bounded witness counts)",
         ],
-        "clauses_not_decided": ["witness sets larger than 10 ('random larger sets')"],
-        "explanation": "All verdict clauses of validate_membership as named postconditions over witness vectors of every length up to the bound, with fully symbolic f64 trust, confirmations, latencies and configuration.",
+        "clauses_not_decided": [
+            "count_confirming_regions itself (HashSet chain): its contract is assumed",
+            "detect_collusion_indicators beyond the Kani bound on the number of witnesses",
+        ],
+        "explanation": "Verus: structural contracts of validate_trust_weighted / validate_bft / validate_membership over uninterpreted IEEE operators for witness sets of any size, plus lemmas (f liars, withdrawal, unanimity) over those contracts. Kani: IEEE order axioms (complete), collusion callee contract (bounded), quorum arithmetic.",
         "jobs": {"quick": 8, "thorough": 8},
         "harness_timeout": {"quick": 1500, "thorough": 7200},
     },
